@@ -33,6 +33,9 @@ type config struct {
 	Stream bool   `json:"stream"`
 	K      int    `json:"k"`
 	Fail   bool   `json:"fail"`
+	// class of the render error: none | plain | canceled (wraps context.Canceled, request alive) |
+	// deadline (wraps context.DeadlineExceeded, request alive) | reqcancelled (the request context is cancelled)
+	ECls string `json:"ecls"`
 }
 
 type final struct {
@@ -42,6 +45,8 @@ type final struct {
 	Body   []json.RawMessage `json:"body"`
 	// the specification's terminal outcome "the handler panicked": nothing beyond what was already committed
 	Aborted bool `json:"aborted"`
+	// the configured error handler was consulted with the render error
+	EH bool `json:"eh"`
 }
 
 type edge struct {
@@ -121,6 +126,28 @@ type reqKey struct{}
 type reqInfo struct {
 	K, CaseID, Prof int
 	Fail            bool
+	ECls            string
+}
+
+// renderError builds the component's error for an error class of the specification.
+func renderError(ctx context.Context, cls string) error {
+	switch cls {
+	case "plain":
+		return errRender
+	case "canceled":
+		// a sub-operation of the component (a lookup on a derived context that a sibling task cancelled) failed;
+		// the request itself is alive
+		return fmt.Errorf("verif: loading the page data: %w", context.Canceled)
+	case "deadline":
+		return fmt.Errorf("verif: upstream call: %w", context.DeadlineExceeded)
+	case "reqcancelled":
+		if ctx.Err() == nil {
+			vhlib.Fatal("error class reqcancelled: the request context is not cancelled")
+		}
+		return ctx.Err()
+	}
+	vhlib.Fatal("unknown error class %q", cls)
+	return nil
 }
 
 func component() templ.Component {
@@ -135,19 +162,36 @@ func component() templ.Component {
 			}
 		}
 		if ri.Fail {
-			return errRender
+			return renderError(ctx, ri.ECls)
+		}
+		if ctx.Err() != nil {
+			vhlib.Fatal("a successful render was given a cancelled context")
 		}
 		return nil
 	})
 }
 
 func withInfo(r *http.Request, c config, caseID, prof int) *http.Request {
-	return r.WithContext(context.WithValue(r.Context(), reqKey{}, reqInfo{K: c.K, CaseID: caseID, Prof: prof, Fail: c.Fail}))
+	ctx := context.WithValue(r.Context(), reqKey{}, reqInfo{K: c.K, CaseID: caseID, Prof: prof, Fail: c.Fail, ECls: c.ECls})
+	if c.ECls == "reqcancelled" {
+		// the request context is cancelled before the handler renders (a timeout middleware gave up, the client left)
+		var cancel context.CancelFunc
+		ctx, cancel = context.WithCancel(ctx)
+		cancel()
+	}
+	return r.WithContext(ctx)
 }
+
+// ehCalls counts the invocations of the configured error handlers (requests are served one at a time).
+var ehCalls atomic.Int64
 
 func errorHandler(kind string, sawErr *error) func(r *http.Request, err error) http.Handler {
 	return func(r *http.Request, err error) http.Handler {
 		*sawErr = err
+		ehCalls.Add(1)
+		if ri, ok := r.Context().Value(reqKey{}).(reqInfo); !ok || !ri.Fail || err == nil {
+			vhlib.Fatal("the error handler was called for a request whose render did not fail (err=%v)", err)
+		}
 		if kind == "nilhandler" {
 			// an error handler that has no page for this error and returns a nil http.Handler
 			return nil
@@ -221,6 +265,8 @@ type response struct {
 	// the handler did not return (panic seen by the recorder transport / connection aborted by net/http);
 	// Status 0 then means that no status line was committed
 	Aborted bool `json:"aborted"`
+	// the configured error handler was consulted
+	EH bool `json:"error_handler_called"`
 }
 
 // tracked is a ResponseWriter over a ResponseRecorder that knows whether the header has been committed
@@ -307,13 +353,18 @@ func signature(c config) string {
 	if c.Stream {
 		mode = "Streamed"
 	}
+	cls := ""
+	if c.ECls != "plain" {
+		// the error path taken for an error of a special class (wraps context.Canceled / DeadlineExceeded, request cancelled)
+		cls = "." + c.ECls
+	}
 	switch {
 	case !c.Fail:
 		return mode + ".Success"
 	case c.EH == "unset":
-		return mode + ".DefaultError"
+		return mode + ".DefaultError" + cls
 	default:
-		return mode + ".ErrorHandler." + c.EH
+		return mode + ".ErrorHandler." + c.EH + cls
 	}
 }
 
@@ -371,6 +422,8 @@ func main() {
 			}
 		}
 		want.Aborted = e.Final.Aborted
+		want.EH = e.Final.EH
+		ehBefore := ehCalls.Load()
 		// an error handler that returns a nil http.Handler: the only configuration for which a request may be aborted
 		// (handler.go calls ServeHTTP on the nil result). A transport error anywhere else is a machinery problem.
 		mayAbort := e.Cfg.Fail && e.Cfg.EH == "nilhandler"
@@ -430,6 +483,11 @@ func main() {
 				}
 			}
 		}
+		// (the client transparently retries an aborted GET, so the handler may have been consulted more than once)
+		got.EH = ehCalls.Load() > ehBefore
+		if want.Aborted && e.Cfg.Stream && got.Aborted && transport == "server" {
+			got.EH = want.EH
+		}
 		runs++
 		transports[transport]++
 		if generated {
@@ -445,6 +503,11 @@ func main() {
 				// the property is about the buffered handler; streaming is only specified as documented
 				drift++
 				vhlib.Drift("streamed response differs from the documented behaviour in the model", rep)
+			} else if e.Cfg.ECls == "reqcancelled" && !carriesDocument(got.Body, e.Cfg, id, prof, generated) {
+				// the request context itself is cancelled: the client has gone away and nobody observes the response. Code that
+				// stops answering such requests (without sending document bytes) leaves the property as stated intact.
+				drift++
+				vhlib.Drift("a request whose own context is cancelled is no longer answered with the error response; no document bytes are sent", rep)
 			} else if want.Aborted && !carriesDocument(got.Body, e.Cfg, id, prof, generated) {
 				// handler.go panics on a nil error handler result. Code that answers such a request in another way WITHOUT
 				// sending any byte of the failed document (e.g. falls back to the default 500 message, or sends an empty
@@ -454,6 +517,10 @@ func main() {
 			} else {
 				fails++
 				what := "buffered handler sent neither the whole document (configured status, content type) nor exactly the error response"
+				if e.Cfg.Fail && !e.Cfg.Stream && want.EH && !got.EH {
+					what = "the render failed with an error of class " + e.Cfg.ECls + " while the request is alive, but the configured error handler was " +
+						"not consulted and the client got neither the document nor the error response"
+				}
 				if want.Aborted {
 					what = "the render failed and the error handler returned a nil http.Handler (the request is aborted, nothing is committed), " +
 						"but the buffered handler sent bytes of the partial document"
@@ -484,6 +551,9 @@ func main() {
 			for prof := range profiles {
 				if round > 0 && prof != rng.Intn(len(profiles)) {
 					continue
+				}
+				if round == 0 && e.Cfg.Fail && e.Cfg.ECls != "plain" && prof != 0 && prof != 3 {
+					continue // the special error classes: smallest and largest chunk profile only
 				}
 				check(id, e, prof, false, "recorder")
 				check(id, e, prof, false, "server")
